@@ -367,8 +367,21 @@ fn render_illformed(rng: &mut Rng, fmt: Fmt, fw: &Fw) -> (Vec<u8>, &'static str)
                     for (a, b) in fw.atts.iter().take(2) {
                         lines.push(att(a + 1, b + 1));
                     }
-                    let bad = *rng.pick(&[0usize, n + 1, n + 7]);
-                    lines.push(if rng.bool() { att(bad, 1) } else { att(1, bad) });
+                    // just outside the range, or far outside: values that wrap to a valid index when
+                    // truncated to 32 or 64 bits, and numerals longer than any machine integer
+                    let j = 1 + rng.below(n) as u128;
+                    let bad: String = match rng.below(9) {
+                        0 => "0".into(),
+                        1 => (n + 1).to_string(),
+                        2 => (n + 7).to_string(),
+                        3 => ((1u128 << 32) + j).to_string(),
+                        4 => ((1u128 << 63) + j).to_string(),
+                        5 => ((1u128 << 64) + j).to_string(),
+                        6 => (3 * (1u128 << 64) + j).to_string(),
+                        7 => ((1u128 << 127) + j).to_string(),
+                        _ => format!("1{}{}", "0".repeat(40), j),
+                    };
+                    lines.push(if rng.bool() { format!("{} 1", bad) } else { format!("1 {}", bad) });
                 }
                 3 => {
                     class = "wrong arity";
